@@ -182,6 +182,18 @@ def parse_output(text, job) -> KaniResult:
                 r.verdict = "violation"
                 r.macro_diagnostic = m.group(1)
                 r.reason = "the real macro rejects a valid corpus program at %s: %s" % (m.group(2), m.group(1)[:160])
+            elif job.harness.split("::")[0] in ("c05", "c15", "c16"):
+                # The corpus programs are valid by construction and compile on the pinned tree. If, after a change of
+                # /repo, rustc rejects the EXPANSION of corpus programs and of nothing else in the harness crate (every
+                # error is located in a corpus file), the generated code no longer fits the user's closure: a parameter
+                # is bound to a column/handle of another type. Confirmed by a native build. Errors anywhere else in the
+                # crate (an API change) keep the verdict inconclusive.
+                locs = re.findall(r"^(error(?:\[E\d+\])?: [^\n]*)\n\s*--> (\S+?):(\d+)", text, re.M)
+                locs = [(msg, f, ln) for msg, f, ln in locs if not msg.startswith("error: could not compile")]
+                if locs and all(f in ("src/c05.rs", "src/c15.rs", "src/c16.rs") for _, f, _ in locs):
+                    r.verdict = "violation"
+                    r.macro_diagnostic = locs[0][0]
+                    r.reason = "a valid corpus program no longer compiles after macro expansion (%d errors, all in the corpus, first at %s:%s): %s" % (len(locs), locs[0][1], locs[0][2], locs[0][0][:160])
         elif "CBMC failed" in text or "Status: ERROR" in text or "out of memory" in text.lower():
             r.reason = "CBMC error / out of memory"
         else:
